@@ -225,6 +225,20 @@ func m1vCorpus(c *corr.Ctx) {
 			seq++
 		}
 		cu.HostileStream(c, Mpeg1Video, inst, pkts, false, "mpeg1video-corpus-side-by-side", "full slice buffer next to a growing fragment list")
+		// fixed ea75fb6: header-only packets (4-byte payload) as following fragments / complete slices
+		pkts = []*rtp.Packet{m1vPkt(0, false, 1, 0, []byte{9})}
+		for i := 1; i <= 2000; i++ {
+			pkts = append(pkts, m1vPkt(uint16(i), false, 0, 0, nil))
+		}
+		cu.HostileStream(c, Mpeg1Video, inst, pkts, false, "mpeg1video-corpus-empty-fragments", "start fragment + header-only middle fragments")
+		pkts = pkts[:0]
+		for i := 0; i < 2000; i++ {
+			pkts = append(pkts, m1vPkt(uint16(i), false, 1, 1, nil))
+		}
+		cu.HostileStream(c, Mpeg1Video, inst, pkts, false, "mpeg1video-corpus-empty-slices", "header-only complete-slice packets without marker")
+		pkts = []*rtp.Packet{m1vPkt(0, false, 1, 0, []byte{9}), m1vPkt(1, false, 0, 0, nil), m1vPkt(2, false, 0, 0, []byte{8}), m1vPkt(3, false, 1, 1, nil),
+			m1vPkt(4, false, 1, 0, nil), m1vPkt(5, false, 0, 1, nil), m1vPkt(6, true, 1, 1, []byte{0, 0, 1, 7})}
+		cu.HostileStream(c, Mpeg1Video, inst, pkts, true, "mpeg1video-corpus-empty-small", "header-only packets in every position")
 		// the same shapes, small, compared with the model step by step
 		small := make([]byte, 40)
 		pkts = []*rtp.Packet{m1vPkt(5, false, 1, 1, small), m1vPkt(6, false, 1, 0, small), m1vPkt(7, false, 0, 0, small),
